@@ -171,6 +171,16 @@ def handle (ws : List String) : String :=
     match n.toNat? with
     | some n => showRates (kingRates n)
     | none => "bad-op"
+  | "rt" :: k :: sh :: n :: mt :: b :: d :: n0 :: rest =>
+    -- `rt <k> <shared 0|1> <N|-> <maxT|-> <b> <d> <n0> draws…`: rand_trees(rng, birth_death_tree, kwargs, k); trees joined by " | "
+    match k.toNat?, optNat n, optInt mt, b.toInt?, d.toInt?, n0.toNat?, rest.mapM parseDraw with
+    | some k, some n, some mt, some b, some d, some n0, some ds =>
+      if sh != "0" && sh != "1" then "bad-op" else
+      match randTrees { nTips := n, maxTime := mt, b := b, d := d } (sh == "1") k n0 ds with
+      | .error e => "err " ++ errName e
+      | .ok (rs, []) => "ok " ++ " | ".intercalate (rs.map (fun r => (renderBT r.taxa r.tree 0).1))
+      | .ok (_, _ :: _) => "err kind"
+    | _, _, _, _, _, _, _ => "bad-op"
   | "mking" :: n :: pop :: l :: rest =>
     match n.toNat?, pop.toNat?, l.toInt?, rest.mapM parseDraw with
     | some n, some pop, some l, some ds => showGT (fun p => toString p.1) (meanKingman n pop l ds)
